@@ -92,6 +92,18 @@ func c15genShared(rng *core.Rng, tag string, custom bool, group string) c15sessi
 			s.Kinds = append(s.Kinds, "shared-text")
 			continue
 		}
+		if rng.Intn(12) == 0 {
+			// a one-column result of a type without a text form (record), asked for in the default format, and a
+			// one-column text result right after it: whatever the first gets, the second is text
+			rq, tq := "R "+id, "T1 "+id
+			s.Progs[rq] = &hs.Prog{Stmts: []*hs.Stmt{{ID: "record:" + id, Cols: wire.Columns{{Name: "rec", Oid: oid.T_record, Width: -1}}, Params: []oid.Oid{},
+				Ops: []hs.Op{{K: "row", Vals: []any{[]any{int32(1), "a"}}}, {K: "complete", Tag: "SELECT 1"}}}}}
+			s.Progs[tq] = &hs.Prog{Stmts: []*hs.Stmt{{ID: "t" + id, Cols: wire.Columns{{Name: "n", Oid: oid.T_int4, Width: 4}}, Params: []oid.Oid{},
+				Ops: []hs.Op{{K: "row", Vals: []any{int32(42)}}, {K: "complete", Tag: "SELECT 1"}}}}}
+			s.Steps = append(s.Steps, append(pg.Query(rq), pg.Query(tq)...))
+			s.Kinds = append(s.Kinds, "record-column")
+			continue
+		}
 		if rng.Intn(6) == 0 {
 			// portal life cycle: bind with parameters (NULLs, binary codes, a large value now and then),
 			// describe, execute twice, close, execute the closed portal, multi-statement and empty queries
@@ -355,7 +367,7 @@ func c15run(env *hs.Env, s c15session, yield func()) (r c15result, cl *hs.Client
 		case "op":
 			o := e.Data.(hs.OpRes)
 			r.Trace = append(r.Trace, fmt.Sprintf("op:%s#%d:%v:%d", o.Stmt, o.Idx, o.ErrNil, o.Written))
-			if !o.ErrNil && o.K == "row" {
+			if !o.ErrNil && o.K == "row" && !strings.HasPrefix(o.Stmt, "record:") { // (a record has no text form: that row is expected to be refused)
 				r.RowErrs = append(r.RowErrs, o.Err)
 			}
 		case "copyread":
